@@ -29,6 +29,30 @@ CHECKS["C01"] = dict(
     ref="DESIGN.md 5.2, 5.3, 8 (C01)",
     technique="TLC model checking of DMapKey.tla + TLC trace validation (linearizability search) of real concurrent histories against Register.tla")
 
+REG_NOTE = TRUST + "; time is the process clock in whole milliseconds (all members and clients live in one process)"
+CHECKS["C07"] = dict(
+    text="Concurrent Incr/Decr/IncrByFloat/GetPut histories from callers spread over every entry path are accepted by TLC iff they are linearizable "
+         "with respect to Register.tla's counter / swap semantics (no lost update, GetPut results form one chain, final Get = sum).",
+    ref="DESIGN.md 5.2, 8 (C07)", note=REG_NOTE,
+    technique="TLC trace validation (linearizability search) of real concurrent histories against Register.tla")
+CHECKS["C08"] = dict(
+    text="Lock/Unlock/Lease are operations of Register.tla (token = value, timeout = deadline interval); histories of competing lockers with timeouts, "
+         "leases, stale and forged tokens on every entry path are accepted by TLC iff some linearization explains every grant, refusal and its timing.",
+    ref="DESIGN.md 5.2, 8 (C08)", note=REG_NOTE,
+    technique="TLC trace validation of real lock histories against the time-aware Register.tla (interval arithmetic on deadlines)")
+CHECKS["C09"] = dict(
+    text="Expiry is part of Register.tla: a deadline is an interval derived from the invocation/response times; micro-scenarios place operations just "
+         "before and after the deadline for every way of setting a ttl and every entry path; TLC accepts a history iff every reply (and every reported ttl) "
+         "is consistent with some instant inside each operation's interval.",
+    ref="DESIGN.md 5.2, 8 (C09)", note=REG_NOTE,
+    technique="TLC trace validation of real timed histories against the time-aware Register.tla")
+CHECKS["C15"] = dict(
+    text="Every operation x option combination x initial state is executed through every client path (embedded on each member, raw RESP to each member, "
+         "cluster client, pipeline) on a key of its own; TLC validates each path's replies and follow-up reads against Register.tla, so every path is shown "
+         "to mean what the specification says - and therefore the same thing.",
+    ref="DESIGN.md 5.2, 8 (C15)", note=REG_NOTE,
+    technique="exhaustive case enumeration + TLC trace validation of every case against Register.tla")
+
 NOT_YET = {}
 
 def main():
